@@ -21,11 +21,11 @@ def run(ctx, R):
     R.explanation = 'Mailbox discipline of streamz.core.latest (update/cb) on every enumerated path.'
     declare(R, delivery.RULES, RULES, FLOORS)
     cls = [ctx.model.cls('streamz.core', 'latest')]
-    delivery.check_mailbox(ctx, R, cls)
-    delivery.check_single_consumer(ctx, R, cls)
-    delivery.check_serial_drain(ctx, R, cls)
-    delivery.check_emit_sig(ctx, R, cls)
-    delivery.check_pass_value(ctx, R, cls)
+    R.run(delivery.check_mailbox, ctx, R, cls)
+    R.run(delivery.check_single_consumer, ctx, R, cls)
+    R.run(delivery.check_serial_drain, ctx, R, cls)
+    R.run(delivery.check_emit_sig, ctx, R, cls)
+    R.run(delivery.check_pass_value, ctx, R, cls)
 
 
 META['level'] += ' MAILBOX also requires a notification after every store into the slot and a slot that wraps the element (no element value can look like the empty marker).'
